@@ -1117,7 +1117,7 @@ def op_line(op):
     if k == "we":
         return f"we {op[1]} {common.lst(op[2])} {op[3]}"
     if k == "rw":
-        return f"rw {op[1]}"
+        return f"sc {op[1]}" if len(op) > 2 and op[2] == "copy" else f"rw {op[1]}"      # copy.copy(u) vs UserFunction(u)
     if k == "dc":
         return f"dc {op[1]}"
     if k == "ca" and len(op) > 4 and op[3] == "map":
@@ -1140,9 +1140,14 @@ def model_ops(case):
     return [op for op in case["ops"] if op[0] not in ("np", "pt")]
 
 
-def model_line(case):
+def model_line(case, policy="share"):
     ops = model_ops(case)
-    return f"run {len(ops)} " + " ".join(op_line(op) for op in ops)
+    return f"{'run' if policy == 'share' else 'runcopy'} {len(ops)} " + " ".join(op_line(op) for op in ops)
+
+
+def policy_sensitive(case):
+    """the two constructor policies (alias / copy the containers) can only differ after a re-wrap or an explicit defaults="""
+    return any((op[0] == "rw" and not (len(op) > 2 and op[2] == "copy")) or (op[0] == "we" and op[3] >= 0) for op in case["ops"])
 
 
 CORPUS = [
@@ -1298,12 +1303,31 @@ def run(ctx, rep, cases=None):
         done.append(case); impl.append(lines); probs.append(problems)
     try:
         replies = common.run_driver("C13", [model_line(c) for c in done])
+        sens = [i for i, c in enumerate(done) if policy_sensitive(c)]
+        copies = dict(zip(sens, common.run_driver("C13", [model_line(done[i], "copy") for i in sens])))
     except common.DriverFailure:
         for c, p in zip(done, probs):
             for msg in p:
                 rep.fail(msg, c)
         raise
-    for case, lines, problems, reply in zip(done, impl, probs, replies):
+    # The statement promises nothing about set_default reaching (or not reaching) a re-wrap / a user's defaults= dict:
+    # the constructor may alias these containers (TPV.UserFun.step) or copy them (stepCopy).  ONE policy has to
+    # explain the whole run: every history is compared with the model of the policy that the histories which can
+    # tell the two apart agree on (ties -> the aliasing one).
+    votes = {"share": 0, "copy": 0}
+    for i in sens:
+        a, b = replies[i].split(" ; "), copies[i].split(" ; ")
+        if a != b:
+            if impl[i] == a:
+                votes["share"] += 1
+            elif impl[i] == b:
+                votes["copy"] += 1
+    policy = "copy" if votes["copy"] > votes["share"] else "share"
+    rep.count("constructor policy: histories that fit only the aliasing model", votes["share"])
+    rep.count("constructor policy: histories that fit only the copying model", votes["copy"])
+    rep.notes.append(f"constructor container policy used for the correspondence: {policy} (votes {votes})")
+    for i, (case, lines, problems) in enumerate(zip(done, impl, probs)):
+        reply = copies[i] if (policy == "copy" and i in copies) else replies[i]
         model = reply.split(" ; ") if model_ops(case) else []
         rep.case(case["ops"], nontrivial(case, lines),
                  sample=dict(case=case, implementation=lines[-1] if lines else "", model=model[-1] if model else ""),
@@ -1311,7 +1335,7 @@ def run(ctx, rep, cases=None):
         classify(rep, case, lines)
         if lines != model:
             k = next((i for i, (a, b) in enumerate(zip(lines, model)) if a != b), min(len(lines), len(model)))
-            rep.disagree("history of wrapper operations: drivers/C13.lean `run` (TPV.UserFun.step) vs torchphysics.utils.user_fun",
+            rep.disagree(f"history of wrapper operations: drivers/C13.lean `{'run' if policy == 'share' else 'runcopy'}` (TPV.UserFun.stepP .{policy}) vs torchphysics.utils.user_fun",
                          dict(case, first_difference_at_model_op=k),
                          lines[k] if k < len(lines) else "<no line>", model[k] if k < len(model) else "<no line>")
         for msg in problems:
